@@ -324,6 +324,10 @@ def c05(H):
         bad = [(p["pid"], p["exitcode"], p["joined"]) for p in H.procs if p["exitcode"] != 0 or not p["joined"]]
         if bad:
             v.append({"kind": "unclean_worker_exit", "detail": f"(pid, exitcode, joined) {bad}", "where": "exit"})
+        left = [t for t in H.tasks if t["pid"] == 1000 and t["state"] == "blocked" and t["name"].startswith("QueueFeederThread")]
+        if left and not bad:
+            v.append({"kind": "feeder_thread_left_behind", "detail": f"shutdown completed but the management thread(s) "
+                      f"{[(t['name'], t['what']) for t in left]} never ended", "where": "feeder"})
     done_sd = set()
     for o in sorted(H.ops, key=lambda o: (o["thread"], o["k"])):
         if o["op"][0] == "shutdown" and o["outcome"] == ["ok", None]:
